@@ -222,6 +222,10 @@ def run_c03_c09(r: Run, prop):
                 continue   # exact evaluation at order 150-300 on thousands of atoms: hours
             z = rng.choice([0, 0, 1, 2, -1, 3, -3])
             cases.append((comp, req, z, PROTON, rng.choice(["vec", "map"])))
+    # the cut loop's leading branch: variants below 1e-10 of the requested range BEFORE the first real one are kept
+    for comp, req, z in ([("Mg", 100)], "n:100", 2), ([("Mg", 150)], "n:120", -1), ([("Mg", 100), ("Si", 10)], "n:110", 1), \
+            ([("Mg", 100)], "n:100", 0):
+        cases.append((comp, req, z, PROTON, "vec"))
     if prop == "C09":
         pool = [[("C", 6), ("H", 12), ("O", 6)], [("K", 3)], [("Si", 2), ("Mg", 1), ("O", 4)], [("H", 2), ("O", 1)],
                 [("Cl", 2)], [("K", 300)], [("Br", 4)], [("S", 8)], [("Ca", 1), ("Cl", 2)], [("C", 60), ("H", 120), ("O", 60)]]
@@ -363,6 +367,37 @@ def run_c08(r: Run):
                     r.violation("corr-history", {"last_call": h[k][0]}, f"generator result for call {k} ({h[k][0]}) differs from the model's",
                                 expected=mo[:300], observed={"lines": [line[:2000]], "impl": o[:300]}, kind="corr_broken")
                     break
+    # every ordered pair of distinct table elements on one generator (X1 then Y1, full ladder): whatever the cache
+    # is keyed by, two elements that collide under that key show here (the theorem's hypothesis is SymInj: a
+    # symbol determines its element)
+    T = table()
+    syms = sorted(T)
+    plines, pmeta = [], []
+    for a in syms:
+        for b in syms:
+            if a != b:
+                plines.append(f"brainhist\t{a}:0=1;n:{T[a]['span'] + 1};0;1007276/1000000;vec|{b}:0=1;n:{T[b]['span'] + 1};0;1007276/1000000;vec")
+                pmeta.append((a, b))
+    pout = r.impl("brainhist", plines, stall=120)
+    npair_bad = 0
+    for (a, b), line, il in zip(pmeta, plines, pout):
+        outs = il.split("|")
+        good = len(outs) == 2
+        if good:
+            for o in outs:
+                gen_s, _, st_s = o.partition("~")
+                if gen_s != st_s and not same_peaks(gen_s, st_s, 1e-12):
+                    good = False
+        r.evaluations += 1
+        if not good:
+            corr_ok = False
+            npair_bad += 1
+            if npair_bad <= 4:
+                r.violation("history", {"pair": [a, b]}, f"one generator asked for {a} and then for {b} returns a pattern for {b} that differs "
+                            f"from the stateless function's", expected=il.split("|")[-1].partition("~")[2][:300],
+                            observed={"lines": [line], "impl": il[:300]})
+    r.case(("element-pairs", npair_bad == 0), {"pairs": len(plines), "differing": npair_bad})
+    r.coverage["element_pairs"] = dict(ordered_pairs=len(plines), differing=npair_bad)
     # repetition and concurrency: 16 threads, own generators + stateless calls, compared with single-threaded results
     cl = ["brainconc\t" + "|".join(call_str(c) for c in POOL)]
     out = r.impl("brainconc", cl, stall=300)[0]
